@@ -14,7 +14,7 @@ structure Inv (s : St) : Prop where
   blk : s.inputPos - s.lastProcessedPos ≤ s.blockSize
   lastFin : s.isLastBlockEmitted = true → s.streamState = .finished
   mdIff : (s.streamState = .metadataHead ∨ s.streamState = .metadataBody) ↔ s.remainingMetadata ≠ u32Max
-  mdLe : s.remainingMetadata ≠ u32Max → s.remainingMetadata ≤ 2 ^ 24
+  mdLe : s.remainingMetadata ≠ u32Max → s.remainingMetadata ≤ 16777216
 
 def SState.isMd (t : SState) : Bool := t == .metadataHead || t == .metadataBody
 
@@ -88,8 +88,7 @@ theorem updateSizeHint_fields (s : St) (n : Nat) :
     ∧ (updateSizeHint s n).lastFlushPos = s.lastFlushPos ∧ (updateSizeHint s n).lastProcessedPos = s.lastProcessedPos
     ∧ (updateSizeHint s n).isLastBlockEmitted = s.isLastBlockEmitted ∧ (updateSizeHint s n).pending = s.pending
     ∧ (updateSizeHint s n).lastBytesBits = s.lastBytesBits ∧ (updateSizeHint s n).lastBytes = s.lastBytes := by
-  unfold updateSizeHint
-  split <;> simp
+  by_cases h : s.params.sizeHint = 0 <;> simp [updateSizeHint, h]
 
 theorem inv_updateSizeHint {s : St} (hI : Inv s) (n : Nat) : Inv (updateSizeHint s n) := by
   obtain ⟨u1, _, _, _, _, u6, u7, u8, u9, u10, u11, u12, _⟩ := updateSizeHint_fields s n
@@ -114,56 +113,50 @@ theorem encodeData_succeeds {o : Oracle} {s s' : St} {site : Nat} {il ff res : B
     have := hI.blk
     omega
 
-/-- state after a successful `encode_data` followed by the FLUSH/FINISH marking -/
-theorem inv_encode_mark {o : Oracle} {s s1 : St} {site : Nat} {il ff : Bool} {req : Req} (hI : Inv s)
-    (hst : s.streamState = .processing ∨ (s.streamState.isMd = true ∧ il = false))
-    (h : encodeData o s site il ff = .ok (s1, true, req)) :
-    Inv (markAfterEncode s1 il ff) ∧ (il = false → Inv s1) := by
+theorem markAfterEncode_fields (s : St) (il ff : Bool) :
+    (markAfterEncode s il ff).params = s.params ∧ (markAfterEncode s il ff).inputPos = s.inputPos
+    ∧ (markAfterEncode s il ff).remainingMetadata = s.remainingMetadata
+    ∧ (markAfterEncode s il ff).isInitialized = s.isInitialized
+    ∧ (markAfterEncode s il ff).lastFlushPos = s.lastFlushPos
+    ∧ (markAfterEncode s il ff).lastProcessedPos = s.lastProcessedPos
+    ∧ (markAfterEncode s il ff).isLastBlockEmitted = s.isLastBlockEmitted
+    ∧ (markAfterEncode s il ff).pending = s.pending ∧ (markAfterEncode s il ff).lastBytesBits = s.lastBytesBits
+    ∧ (markAfterEncode s il ff).streamState = (if il then .finished else if ff then .flushRequested else s.streamState) := by
+  unfold markAfterEncode
+  cases il <;> cases ff <;> exact ⟨rfl, rfl, rfl, rfl, rfl, rfl, rfl, rfl, rfl, rfl⟩
+
+/-- a successful `encode_data` keeps `Inv`, except that the latch may now be ahead of the
+stream state (`compress_stream` fixes that by `markAfterEncode`) -/
+theorem inv_encode {o : Oracle} {s s1 : St} {site : Nat} {il ff : Bool} {req : Req} (hI : Inv s)
+    (h : encodeData o s site il ff = .ok (s1, true, req)) (hil : il = false) : Inv s1 := by
   obtain ⟨f, _, _, _, _⟩ := encodeData_frame h
   obtain ⟨p1, p2, p3, p4⟩ := encodeData_pos h hI.fl_le hI.lp_le hI.ip_lt
   have hl := encodeData_latch h
   rw [St.frame_eq_iff] at f
   obtain ⟨f1, f2, f3, f4, f5, _, _⟩ := f
-  constructor
-  · have mk : (markAfterEncode s1 il ff).params = s1.params ∧ (markAfterEncode s1 il ff).inputPos = s1.inputPos
-        ∧ (markAfterEncode s1 il ff).remainingMetadata = s1.remainingMetadata
-        ∧ (markAfterEncode s1 il ff).isInitialized = s1.isInitialized
-        ∧ (markAfterEncode s1 il ff).lastFlushPos = s1.lastFlushPos
-        ∧ (markAfterEncode s1 il ff).lastProcessedPos = s1.lastProcessedPos
-        ∧ (markAfterEncode s1 il ff).isLastBlockEmitted = s1.isLastBlockEmitted := by
-      unfold markAfterEncode; split <;> [skip; split] <;> simp
-    obtain ⟨k1, k2, k3, k4, k5, k6, k7⟩ := mk
-    refine hI.transfer (by rw [k1, f1]) (k2.trans f2) (k3.trans f3) (k4.trans f5) ?_ ?_ ?_ ?_ ?_
-    · rcases hst with hst | ⟨hst, hil⟩
-      · rw [hst]
-        unfold markAfterEncode
-        split
-        · rfl
-        · split
-          · rfl
-          · rw [f4, hst]
-      · subst hil
-        unfold markAfterEncode
-        simp only [Bool.false_eq_true, ↓reduceIte]
-        split
-        · -- a forced flush inside metadata keeps the metadata state: `markAfterEncode` is not applied there
-          rename_i hff
-          simp [SState.isMd]
-          rw [f4] at *
-          sorry
-        · rw [f4]
-    · rw [k5, k6]; exact p1
-    · rw [k6, k2, f2]; exact p3
-    · rw [k6]; exact p2
-    · intro hle
-      rw [k7, hl] at hle
-      subst hle
-      unfold markAfterEncode
-      simp
-  · intro hil
-    refine hI.transfer (by rw [f1]) f2 f3 f5 (by rw [f4]) p1 (by rw [f2]; exact p3) p2 ?_
-    intro hle
-    rw [hl, hil] at hle
-    exact absurd hle (by simp)
+  refine hI.transfer (by rw [f1]) f2 f3 f5 (by rw [f4]) p1 (by rw [f2]; exact p3) p2 ?_
+  intro hle
+  rw [hl, hil] at hle
+  exact absurd hle (by simp)
+
+/-- `encode_data` from `compress_stream` (stream state PROCESSING) followed by the marking -/
+theorem inv_encode_mark {o : Oracle} {s s1 : St} {site : Nat} {il ff : Bool} {req : Req} (hI : Inv s)
+    (hst : s.streamState = .processing)
+    (h : encodeData o s site il ff = .ok (s1, true, req)) : Inv (markAfterEncode s1 il ff) := by
+  obtain ⟨f, _, _, _, _⟩ := encodeData_frame h
+  obtain ⟨p1, p2, p3, p4⟩ := encodeData_pos h hI.fl_le hI.lp_le hI.ip_lt
+  have hl := encodeData_latch h
+  rw [St.frame_eq_iff] at f
+  obtain ⟨f1, f2, f3, f4, f5, _, _⟩ := f
+  obtain ⟨k1, k2, k3, k4, k5, k6, k7, _, _, k10⟩ := markAfterEncode_fields s1 il ff
+  refine hI.transfer (by rw [k1, f1]) (k2.trans f2) (k3.trans f3) (k4.trans f5) ?_ ?_ ?_ ?_ ?_
+  · rw [k10, hst, f4, hst]
+    cases il <;> cases ff <;> rfl
+  · rw [k5, k6]; exact p1
+  · rw [k6, k2, f2]; exact p3
+  · rw [k6]; exact p2
+  · intro hle
+    rw [k7, hl] at hle
+    rw [k10, hle]; rfl
 
 end BV.Stream
